@@ -31,6 +31,9 @@ func (x *exec) histC12() {
 		if x.stop || len(x.res.Viol) > 0 {
 			break
 		}
+		if s.Steps[i].Rep > 0 && x.res.Stats.Steps > 4*RepStepCap {
+			continue // warm-up repeats cut short
+		}
 		ei := st.E % len(s.Exprs)
 		ex := x.shared[ei]
 		text := s.Exprs[ei].Text
@@ -126,6 +129,13 @@ func (x *exec) histC12() {
 				continue
 			}
 			x.relations(i, ei, d, st.C)
+		case "gc":
+			for _, h := range hs {
+				if h.dead {
+					h.it = nil
+				}
+			}
+			x.forceGC()
 		}
 	}
 	// non-trivial: the run exercised the protocol on a sequence of two or more
